@@ -31,6 +31,7 @@ def main():
     ap.add_argument("--checks", default=None)
     ap.add_argument("--tests", action="store_true", default=True)
     ap.add_argument("--tier", default="quick")
+    ap.add_argument("--as", dest="as_index", default=None, help="index under /verif/seeded (default: i)")
     a = ap.parse_args()
     patch = os.path.join(a.dir, "mut%s.diff" % a.i)
     demo_src = os.path.join(a.dir, "demo%s.py" % a.i)
@@ -74,7 +75,7 @@ def main():
         sh("git -C /repo checkout -- .")
         sh("rm -rf /verif/replays")
     out["detected_by"] = [c for c, v in out.get("checks", {}).items() if v["exit"] == 1]
-    dest = os.path.join("/verif/seeded", "%s_%s" % (a.prop, a.i))
+    dest = os.path.join("/verif/seeded", "%s_%s" % (a.prop, a.as_index or a.i))
     os.makedirs(dest, exist_ok=True)
     shutil.copy(patch, os.path.join(dest, "patch.diff"))
     shutil.copy(demo_src, os.path.join(dest, "demo.py"))
